@@ -192,11 +192,12 @@ func (w *world) addr(id int) sdk.AccAddress {
 }
 
 var typeURL = map[string]string{
-	"eth":  "/eth.evm.v1.MsgEthereumTx",
-	"exec": "/cosmos.authz.v1beta1.MsgExec",
-	"wasm": "/cosmwasm.wasm.v1.MsgExecuteContract",
-	"send": "/cosmos.bank.v1beta1.MsgSend",
-	"gov":  "/cosmos.gov.v1.MsgSubmitProposal",
+	"eth":   "/eth.evm.v1.MsgEthereumTx",
+	"exec":  "/cosmos.authz.v1beta1.MsgExec",
+	"wasm":  "/cosmwasm.wasm.v1.MsgExecuteContract",
+	"send":  "/cosmos.bank.v1beta1.MsgSend",
+	"gov":   "/cosmos.gov.v1.MsgSubmitProposal",
+	"grant": "/cosmos.authz.v1beta1.MsgGrant",
 }
 
 type built struct {
